@@ -4,7 +4,7 @@
 use crate::{
     report::Report,
     rng::Rng,
-    scen::{self, check_beacons, check_node_inputs, compare_verdict, order_signature, reference, run_two_pass, Issue, NodeSpy, RealVerdict, RefVerdict, Scenario},
+    scen::{self, check_beacons, check_node_inputs, compare_verdict, order_signature, reference, run_two_pass, run_two_phase_manual, Issue, NodeSpy, RealVerdict, RefVerdict, Scenario},
     scengen::{self, GenOpts},
     vmcase::Pools,
     Args,
@@ -51,7 +51,8 @@ impl<'a> Eng<'a> {
         let (rv, info) = reference(sc);
         self.spy.phase.store(1, Ordering::SeqCst);
         let p = if pool > 0 { Some(self.pools.get(pool) as &rayon::ThreadPool) } else { None };
-        let run = run_two_pass(sc, sc.solutions.clone(), p, delay_seed);
+        let manual = kind == "manual-two-phase";
+        let run = if manual { run_two_phase_manual(sc, p) } else { run_two_pass(sc, sc.solutions.clone(), p, delay_seed) };
         let obs = self.spy.take();
         self.rep.evaluations += 1;
         self.rep.count(&format!("workload.{kind}"));
@@ -311,12 +312,16 @@ pub fn run(args: &Args, rep: &mut Report) {
     let mut e = Eng { rep, spy: spy.clone(), pools: Pools::new(), orders: BTreeSet::new() };
     match args.prop.as_str() {
         "C01" | "C03" | "C06" | "C16" => {
-            let n = scale(12_000.0, 600_000.0);
+            let n = scale(30_000.0, 1_200_000.0);
             for i in 0..n {
                 let o = opts_for(&args.prop, &mut r);
                 let sc = scengen::gen_scenario(&mut r, &o);
                 let pool = *r.pick(&[0usize, 0, 1, 4]);
                 e.judge(&sc, pool, 0, "random");
+                if (args.prop == "C01" || args.prop == "C03") && i % 4 == 1 {
+                    // the two run modes in sequence over a shared cache, harness-owned post-state view
+                    e.judge(&sc, pool, 0, "manual-two-phase");
+                }
                 if args.prop == "C01" && i % 3 == 0 {
                     if let Some(sc2) = scengen::renumber(&mut r, &sc) {
                         let (a, b) = (reference(&sc).0, reference(&sc2).0);
@@ -334,7 +339,7 @@ pub fn run(args: &Args, rep: &mut Report) {
         "C02" => {
             let pools: &[usize] = if thorough { &[1, 2, 3, 5, 8, 16] } else { &[1, 2, 5, 16] };
             let seeds = if thorough { 4 } else { 2 };
-            let n = scale(1_200.0, 40_000.0);
+            let n = scale(2_000.0, 60_000.0);
             for _ in 0..n {
                 let o = opts_for("C02", &mut r);
                 let sc = scengen::gen_scenario(&mut r, &o);
@@ -366,7 +371,7 @@ pub fn run(args: &Args, rep: &mut Report) {
         }
         "C04" => {
             permutation_check(&mut e, &d2_witness(), &mut r, true);
-            let n = scale(4_000.0, 200_000.0);
+            let n = scale(10_000.0, 400_000.0);
             for _ in 0..n {
                 let o = opts_for("C04", &mut r);
                 let sc = scengen::gen_scenario(&mut r, &o);
